@@ -227,6 +227,10 @@ static long run_history(const Args &a, uint64_t seqseed, long cs, AllocCtl &st, 
 				break; }
 			case 9: { if (!populated || r.coin(0.15)) { // invalid convolution requests (empty table, dimension out of range, kernel too small) must throw and change nothing
 					double kn[3] = {-0.1, 0.0, 0.3}; uint32_t dim = populated ? before.ndim + (uint32_t)r.below(3) : (uint32_t)r.below(2); size_t nk = populated && r.coin(0.3) ? r.below(2) : 3; if (populated && nk < 2) dim = (uint32_t)r.below(before.ndim);
+					if (populated && r.coin(0.45)) { // a valid request except for the kernel itself: knots that are not numbers, not finite, or decreasing describe no kernel
+						dim = (uint32_t)r.below(before.ndim); nk = 3; int w = (int)r.below(5); double q = std::numeric_limits<double>::quiet_NaN(), inf = std::numeric_limits<double>::infinity();
+						switch (w) { case 0: kn[0] = q; kn[1] = 0; kn[2] = 1; break; case 1: kn[1] = q; break; case 2: kn[2] = inf; break; case 3: kn[0] = -inf; break; default: kn[0] = 0.3; kn[1] = 0.0; kn[2] = -0.1; break; }
+						count("convolve:invalid-kernel-knots"); }
 					hist += "convolve" + std::to_string(ti) + "(invalid);"; phase_log("convolve (invalid arguments)"); try { NewArm na_; T->convolve(dim, kn, nk); } catch (std::exception &e) { threw = true; }
 					if (!threw) fail("convolve:invalid-arguments-accepted"); else if (!snap_eq(snap(*T), before)) fail("convolve:rejected-call-changed-the-table"); break; }
 				if (before.coef.size() > 600) break; unsigned dim = (unsigned)r.below(before.ndim); int nk = r.range(2, 3); if (before.order[dim] + nk > 6) break; std::vector<double> kn; double y = -0.2; for (int i = 0; i < nk; i++) { kn.push_back(y); y += 0.1 + 0.2 * r.U(); }
